@@ -69,7 +69,8 @@ macro("DemePop", ["d"], "PopOf(d._problem, cur_pop(d)) and WfProblem(d._problem)
 
 def deme_loop_invariants(gens, counter, limit):
     return [
-        cl("inv_counter", f"0 <= {counter} and {counter} == len({gens}) and {counter} <= {limit} and {gens} != None and fresh({gens})"),
+        cl("inv_counter", f"0 <= {counter} and {counter} == len({gens}) and {counter} <= {limit} and {gens} != None and fresh({gens})",
+           tags="C04 C06"),
         cl("inv_history_untouched", "self._history == old(self._history) and len(self._history) == old(len(self._history)) and "
            "forall(lambda m: imp(0 <= m < len(self._history), self._history[m] == old(self._history[m])), pat=self._history[m]) "
            "and HistShape(self) and cur_pop(self) == old(cur_pop(self))"),
